@@ -1,0 +1,204 @@
+/* Verification hooks. This module only exists when the crate is compiled with
+ * `--cfg yarel_verif`; nothing here is reachable otherwise.
+ *
+ * All state is thread-local (the heap itself is thread-local) and every
+ * access goes through `try_with`, because hooks can fire while the thread's
+ * locals are being destroyed (the heap drops its objects at thread exit).
+ */
+
+use std::cell::{Cell, RefCell};
+use std::fmt::Write;
+
+pub const GC_DEFAULT: u8 = 0;
+pub const GC_NEVER: u8 = 1;
+pub const GC_ALWAYS: u8 = 2;
+pub const GC_SCHEDULE: u8 = 3;
+
+thread_local! {
+    static ENABLED: Cell<bool> = Cell::new(false);
+    static EVENTS: RefCell<Vec<String>> = RefCell::new(Vec::new());
+    static EVENT_MASK: Cell<u32> = Cell::new(u32::MAX);
+    static GC_MODE: Cell<u8> = Cell::new(GC_DEFAULT);
+    static GC_SCHED: RefCell<Vec<bool>> = RefCell::new(Vec::new());
+    static ALLOC_INDEX: Cell<usize> = Cell::new(0);
+    static FORCED: Cell<bool> = Cell::new(false);
+    static QUARANTINE: Cell<bool> = Cell::new(false);
+    static DEAD_RANGES: RefCell<Vec<(usize, usize)>> = RefCell::new(Vec::new());
+    static UAF_COUNT: Cell<usize> = Cell::new(0);
+}
+
+/// Event classes (bits of the mask given to `enable`).
+pub const EV_HEAP: u32 = 1;
+pub const EV_INTERN: u32 = 2;
+pub const EV_VM: u32 = 4;
+pub const EV_PARSE: u32 = 8;
+pub const EV_ALLOC: u32 = 16;
+
+pub fn enable(mask: u32) {
+    let _ = ENABLED.try_with(|e| e.set(true));
+    let _ = EVENT_MASK.try_with(|m| m.set(mask));
+}
+
+pub fn disable() {
+    let _ = ENABLED.try_with(|e| e.set(false));
+}
+
+pub fn wants(class: u32) -> bool {
+    ENABLED.try_with(|e| e.get()).unwrap_or(false)
+        && EVENT_MASK.try_with(|m| m.get() & class != 0).unwrap_or(false)
+}
+
+pub fn emit(class: u32, event: String) {
+    if wants(class) {
+        let _ = EVENTS.try_with(|v| v.borrow_mut().push(event));
+    }
+}
+
+pub fn take_events() -> Vec<String> {
+    EVENTS
+        .try_with(|v| std::mem::take(&mut *v.borrow_mut()))
+        .unwrap_or_default()
+}
+
+pub fn json_str(s: &str) -> String {
+    let mut out = String::with_capacity(s.len() + 2);
+    out.push('"');
+    for c in s.chars() {
+        match c {
+            '"' => out.push_str("\\\""),
+            '\\' => out.push_str("\\\\"),
+            '\n' => out.push_str("\\n"),
+            '\r' => out.push_str("\\r"),
+            '\t' => out.push_str("\\t"),
+            c if (c as u32) < 0x20 => {
+                let _ = write!(out, "\\u{:04x}", c as u32);
+            }
+            c => out.push(c),
+        }
+    }
+    out.push('"');
+    out
+}
+
+/// Collector control.
+
+pub fn set_gc_mode(mode: u8) {
+    let _ = GC_MODE.try_with(|m| m.set(mode));
+}
+
+pub fn set_gc_schedule(schedule: Vec<bool>) {
+    let _ = GC_SCHED.try_with(|s| *s.borrow_mut() = schedule);
+    set_gc_mode(GC_SCHEDULE);
+}
+
+pub fn reset_alloc_index() {
+    let _ = ALLOC_INDEX.try_with(|a| a.set(0));
+}
+
+pub fn alloc_index() -> usize {
+    ALLOC_INDEX.try_with(|a| a.get()).unwrap_or(0)
+}
+
+/// Called at the top of every allocation; returns the index of this
+/// allocation and whether the schedule forces a collection before it.
+pub(crate) fn next_alloc() -> (usize, bool) {
+    let n = ALLOC_INDEX
+        .try_with(|a| {
+            let n = a.get();
+            a.set(n + 1);
+            n
+        })
+        .unwrap_or(0);
+    let mode = GC_MODE.try_with(|m| m.get()).unwrap_or(GC_DEFAULT);
+    let force = match mode {
+        GC_ALWAYS => true,
+        GC_SCHEDULE => GC_SCHED
+            .try_with(|s| s.borrow().get(n).copied().unwrap_or(false))
+            .unwrap_or(false),
+        _ => false,
+    };
+    (n, force)
+}
+
+/// True when the built-in pacing decision must not collect.
+pub(crate) fn collect_suppressed() -> bool {
+    let mode = GC_MODE.try_with(|m| m.get()).unwrap_or(GC_DEFAULT);
+    mode != GC_DEFAULT && !FORCED.try_with(|f| f.get()).unwrap_or(false)
+}
+
+pub(crate) fn set_forced(on: bool) {
+    let _ = FORCED.try_with(|f| f.set(on));
+}
+
+/// Quarantine: swept objects are kept (flagged) instead of dropped so that a
+/// later access is observable instead of undefined.
+
+pub fn set_quarantine(on: bool) {
+    let _ = QUARANTINE.try_with(|q| q.set(on));
+}
+
+pub(crate) fn quarantine_enabled() -> bool {
+    QUARANTINE.try_with(|q| q.get()).unwrap_or(false)
+}
+
+pub(crate) fn add_dead_range(range: (usize, usize)) {
+    let _ = DEAD_RANGES.try_with(|d| d.borrow_mut().push(range));
+}
+
+pub fn clear_dead_ranges() {
+    let _ = DEAD_RANGES.try_with(|d| d.borrow_mut().clear());
+}
+
+pub(crate) fn use_after_free(serial: usize, ty: &'static str) {
+    let _ = UAF_COUNT.try_with(|c| c.set(c.get() + 1));
+    emit(
+        EV_HEAP,
+        format!(
+            "{{\"e\":\"UseAfterFree\",\"serial\":{},\"ty\":{}}}",
+            serial,
+            json_str(ty)
+        ),
+    );
+}
+
+pub(crate) fn check_open_upvalue(address: usize) {
+    let dead = DEAD_RANGES
+        .try_with(|d| d.borrow().iter().any(|&(lo, hi)| address >= lo && address < hi))
+        .unwrap_or(false);
+    if dead {
+        let _ = UAF_COUNT.try_with(|c| c.set(c.get() + 1));
+        emit(
+            EV_HEAP,
+            "{\"e\":\"UseAfterFree\",\"serial\":0,\"ty\":\"open upvalue into a reclaimed fiber stack\"}"
+                .to_string(),
+        );
+    }
+}
+
+pub fn use_after_free_count() -> usize {
+    UAF_COUNT.try_with(|c| c.get()).unwrap_or(0)
+}
+
+pub fn reset_use_after_free_count() {
+    let _ = UAF_COUNT.try_with(|c| c.set(0));
+}
+
+/// Scanner access (the scanner is crate-private).
+pub fn tokenize(source: &str) -> Vec<(u32, usize, String)> {
+    let mut scanner = crate::scanner::Scanner::from_source(source.to_string());
+    let mut out = Vec::new();
+    loop {
+        let token = scanner.scan_token();
+        let kind = token.kind as u32;
+        out.push((kind, token.line, token.source.clone()));
+        if token.kind == crate::scanner::TokenKind::Eof {
+            break;
+        }
+        if out.len() > source.len() + 8 {
+            // The scanner failed to make progress; report what we have.
+            out.push((u32::MAX, token.line, "no progress".to_string()));
+            break;
+        }
+    }
+    out
+}
